@@ -359,8 +359,8 @@ func init() {
 			"removal by the scanner is of a message older than the period at that instant; after every completed scan everything expired " +
 			"at its start is gone; with cap 0 nothing else vanishes; period 0 never scans; Start and Join return within one simulated " +
 			"second of cancel and nothing is deleted afterwards. non-trivial = a scan completed or the scanner removed something",
-		Real: []string{"pkg/storage RetentionScanner (Start, DoScan, Join)", "pkg/storage/mem", "pkg/storage/file"},
-		Stub: []string{"clock and timers (synctest fake clock)", "scheduler (simrt)", "disk (simfs)"},
+		Real:        []string{"pkg/storage RetentionScanner (Start, DoScan, Join)", "pkg/storage/mem", "pkg/storage/file"},
+		Stub:        []string{"clock and timers (synctest fake clock)", "scheduler (simrt)", "disk (simfs)"},
 		Assumptions: []string{"message dates are those given on AddMessage (the scanner uses Date())"},
 	})
 }
